@@ -76,6 +76,22 @@ def check_theorems(pid):
     return len(names), ok, problems, names
 
 
+def cone_members(pid):
+    """files (relative to coq/) props/<pid>.v depends on, itself included"""
+    seen, todo = set(), [os.path.join(COQ, 'props', pid + '.v')]
+    while todo:
+        f = todo.pop()
+        if f in seen or not os.path.exists(f):
+            continue
+        seen.add(f)
+        src = open(f).read()
+        for lib, sub in (('UV', 'theories'), ('UVG', 'gen')):
+            for m in re.findall(r'From %s Require (?:Import|Export) ([^.]*)\.' % lib, src):
+                for mod in m.split():
+                    todo.append(os.path.join(COQ, sub, mod + '.v'))
+    return set(os.path.relpath(f, COQ) for f in seen)
+
+
 def count_cone(pid):
     """number of Lemma/Theorem statements in the theory files the property file imports (transitively)"""
     seen, todo = set(), [os.path.join(COQ, 'props', pid + '.v')]
@@ -182,13 +198,18 @@ def main():
     if not okh:
         print('INFRA: harness/library does not build:\n' + logh[-3000:])
         sys.exit(2)
-    okt, logt = build_translators()
-    okc, logc = build_coq()
+    with BuildLock():
+        okt, logt = build_translators()
+        okc, logc = build_coq()
+        if not okc:
+            # a second pass separates a transient failure from a file that really does not compile
+            okc, logc = build_coq()
     # the build keeps going past failures (make -k): a broken table theorem of one property must not
     # take the other properties' proofs down with it; each property is judged on its own props file
     ext_vo = os.path.join(COQ, 'extraction', 'Extract.vo')
     ext_ok = os.path.exists(ext_vo) and os.path.getmtime(ext_vo) >= os.path.getmtime(os.path.join(COQ, 'theories', 'Model.v'))
-    okd, logd = build_driver() if ext_ok else (False, 'extraction not built')
+    with BuildLock():
+        okd, logd = build_driver() if ext_ok else (False, 'extraction not built')
     proof_problems = []
     if not okt and pid in ('C13', 'C15', 'C20', 'C17'):
         proof_problems.append('translator failed: ' + logt[-1200:])
@@ -201,6 +222,12 @@ def main():
         tp = ['coq build failed%s' % (' at %s:%s' % m.groups() if m else '')] + tp
     proof_problems += tp
     cone = count_cone(pid)
+    failed_files = sorted(set(re.findall(r'File "\./([^"]+\.v)"', logc)) |
+                          set(x + '.v' for x in re.findall(r'\*\*\* \[[^\]]*?:\s*(\S+)\.vo\] Error', logc))) if not okc else []
+    cone_files = cone_members(pid)
+    for ff in failed_files:
+        if ff in cone_files and not tp:
+            proof_problems.append('%s, which props/%s.v depends on, no longer compiles' % (ff, pid))
 
     # ---- 2. correspondence + monitors
     res = spec['run'](pid, tier, seed, model_ok=okd)
@@ -248,7 +275,8 @@ def main():
         'property_id': pid, 'tier': tier, 'seed': seed, 'level': 'proof',
         'coverage': {
             'obligations': max(1, n_thm + cone),
-            'discharged': (n_thm + cone) if (okc and not proof_problems) else 0,
+            'discharged': (n_thm + cone) if not proof_problems else 0,
+            'build_failures_outside_cone': [f for f in failed_files if f not in cone_files],
             'property_theorems': names,
             'checker_cmd': 'make -C coq (coqc 8.16.1, full .vo build) ; coqc props/%s.v with Print Assumptions ; grep for Admitted/Axiom/...' % pid,
             'trusted_base': spec.get('trusted', []) + [
